@@ -15,7 +15,7 @@ META = {
         "target cell was judged against the interpolation model (kinds 0-2) or a refusal "
         "was exercised (kind 3)."
     ),
-    "cases": {"quick": 320, "thorough": 6400},
+    "cases": {"quick": 640, "thorough": 16000},
     "workers": {"quick": 8, "thorough": 16},
     "timeout": {"quick": 600, "thorough": 5400},
     "deciding": [
@@ -539,6 +539,11 @@ def refusals(ctx):
     # wrong number of components on a 3-d mesh
     for nv in (2, 4) + ((5,) if rng.random() < 0.3 else ()):
         refuse(f"nvdim={nv}", df.Field(mesh, nvdim=nv, value=rng.normal(size=(*n, nv))))
+    # ... also when every component names an axis of the mesh
+    two = rng.permutation(3)[:2]
+    refuse("nvdim=2 mapped", df.Field(mesh, nvdim=2, value=rng.normal(size=(*n, 2)),
+                                      vdims=["a", "b"],
+                                      vdim_mapping={"a": dims[int(two[0])], "b": dims[int(two[1])]}))
     # wrong spatial dimension
     for nd in (1, 2, 4):
         m = df.Mesh(p1=pmin[:3].tolist()[:nd] if nd <= 3 else pmin.tolist() + [0.0],
